@@ -6,7 +6,7 @@ SELS = [(a,) for a in range(NM)] + list(itertools.product(range(NM), repeat=2))
 SELS += [(0, 2, 2), (1, 2, 2), (5, 2, 2), (0, 2, 4), (4, 2, 2), (0, 7, 2), (3, 2, 2), (0, 3, 2), (6, 2, 0), (2, 2, 2)]
 def _j(kind, entry, props, what, sel):
     tag = "".join(str(x) for x in sel)
-    return dict(name="msg.%s.%s" % (kind, tag), props=props, kind="B", harness="h_msg.c", entry=entry, contracts=["common.h"], loops=False,
+    return dict(name="msg.%s.%s" % (kind, tag), props=props, kind="B", tier=("thorough" if kind == "chunking" else "quick"), harness="h_msg.c", entry=entry, contracts=["common.h"], loops=False,
         defines=["SELS=" + ",".join(str(x) for x in sel), "NSEL=%d" % len(sel)],
         cbmc_flags=["--unwind", "44", "--unwinding-assertions"], timeout=1200, cost=5, mem_gb=12, what=what,
         bound="one message built from menu entries %s (menu of 8 unit spellings: absolute, relative, common, with parameter, two items, undefined) over a 6-entry command table; split point / handler values symbolic; loops unwound 44 with unwinding assertions" % (list(sel),))
@@ -14,7 +14,7 @@ JOBS = []
 for sel in SELS:
     JOBS.append(_j("dispatch", "h_msg_dispatch", ["C02", "C06", "C05"], "whole library on one message: handler sequence, parameters, -113, framed output == statement", sel))
 for sel in SELS:
-    if len(sel) >= 2:
+    if len(sel) >= 2 and (len(sel) == 3 or sel[0] <= sel[1] or sel[0] in (0, 4)):
         JOBS.append(_j("chunking", "h_msg_chunking", ["C08"], "stream (this message + one more) in one call vs split at every point: identical trace and remainder", sel))
 for sel in SELS:
     if len(sel) == 2 and sel[0] <= sel[1]:
